@@ -136,6 +136,37 @@ def reqLine (toks : List String) : String :=
     | _, _ => "bad-op"
   | _ => "bad-op"
 
+/-- an upload aborted by the client after `nblocks` full blocks: `abort <root> <flags> <fs> <wrq-hex> <nblocks>` -/
+def abortLine (toks : List String) : String :=
+  match toks with
+  | ["abort", rootH, flags, fsS, dg, nb] =>
+    match bytesOfHex rootH, bytesOfHex dg, nb.toNat? with
+    | some root, some dgram, some nblocks =>
+      let fl := parseFlags flags
+      let cfg := mkCfg root fl
+      match parseFs root fl fsS with
+      | none => "bad-op"
+      | some fs =>
+        let r := handleDatagram cfg fs Gen.defaultBlockSize dgram
+        let r1 := match r.reply with
+          | none => "r1=- none"
+          | some (src, p) => s!"r1={srcName cfg.singlePort src} {showReplyPkt p}"
+        match r.worker with
+        | some w =>
+          if w.kind == .receive && fs.canCreate w.path then
+            let rc : RCfg := { b := w.opts.blockSize, w := w.opts.windowSize, rep := w.rep, cleanOnError := cfg.cleanOnError }
+            let evs : List REv := (List.range nblocks).map (fun i => REv.data ((i + 1) % 65536) (genBytes w.opts.blockSize (i + 1))) ++ [REv.error]
+            let run := rRunFrom rc (rInit rc) evs
+            let acks := " ".intercalate (run.1.flatten.map fun a => s!"A{a.n}")
+            let fs' := match rFinalFile rc run.2 with
+              | some c => fs.set (components w.path) (.file c)
+              | none => fs.remove (components w.path)
+            s!"{r1} ; conv={if acks.isEmpty then "." else acks} ; fs={showFs root fs'}"
+          else s!"{r1} ; conv=. ; fs={showFs root fs}"
+        | none => s!"{r1} ; conv=. ; fs={showFs root fs}"
+    | _, _, _ => "bad-op"
+  | _ => "bad-op"
+
 /-- a hostile batch followed by a probe: by `c05_probe_independent` the batch does not enter the answer -/
 def stormLine (toks : List String) : String :=
   match toks with
